@@ -64,6 +64,16 @@ PROPS = {
         rule="histories of replace/insert calls interleaved with observers; non-trivial = at least two replacements",
         nontrivial=lambda p: sum(1 for s in p.get("steps", []) if s["op"] == "replace") >= 2,
     ),
+    "C06": dict(
+        gens=[tlc("c06"), tlc("c06r"), rand("concat_children", 300, "quick"), rand("replace_inner", 400, "quick"),
+              rand("concat_children", 10000, "thorough"), rand("replace_inner", 20000, "thorough")],
+        tv_props=["C06"],
+        must_fire=["C06.concat_keeps_child_attribution", "C06.concat_lines_first_mapped_piece",
+                   "C06.replace_keeps_inner_attribution"],
+        rule="children / inner sources are observed on their own and inside the composite; non-trivial = a SourceMapSource "
+             "or user-defined child is involved",
+        nontrivial=lambda p: bool(prog_kinds(p) & {"sms", "script", "default"}),
+    ),
     "C07": dict(
         gens=[tlc("c07"), rand("views", 500, "quick"), rand("views", 30000, "thorough")],
         tv_props=["C07"],
